@@ -1,6 +1,7 @@
 import Treepath.Proofs.Drive
 import Treepath.Proofs.EvalLemmas
 import Treepath.Proofs.NodeLemmas
+import Treepath.Proofs.Distinct
 /- C02 — recursive descent visits every node once, in document pre-order -/
 namespace Treepath.C02
 
@@ -80,6 +81,19 @@ theorem machine_descends_in_preorder (steps : Array (Step J)) (src : Src J)
     rs = eval steps.toList src.rootNode :=
   exhausted_all steps src (quiet_of_filterFree _ hff) (clean_of_filterFree steps (fun s hs => (hff s hs).2))
     limit st' st'' rs E evs hy hstop
+
+/-- **each exactly once**: a trailing `rec` reports pairwise distinct locations (document with
+unique keys per dict) -/
+theorem rec_each_once (d : J) (hd : d.WFK) : ((eval [.recur] (.root d)).map MNode.loc).Nodup :=
+  locations_distinct [.recur] d hd (quiet_of_filterFree _ (by intro s hs; simp at hs; subst hs; exact ⟨rfl, by intro f hf; cases hf⟩))
+    (.inr ⟨[], [], rfl, by simp, by simp⟩)
+
+/-- … also below a prefix of plain steps and in front of further plain steps: the remainder is
+evaluated once per container, never twice at one location -/
+theorem rec_nested_once (pre post : List (Step J)) (d : J) (hd : d.WFK) (hq : Quiet (pre ++ .recur :: post))
+    (hpre : ∀ s ∈ pre, s.plain = true) (hpost : ∀ s ∈ post, s.plain = true) :
+    ((eval (pre ++ .recur :: post) (.root d)).map MNode.loc).Nodup :=
+  locations_distinct _ d hd hq (.inr ⟨pre, post, rfl, hpre, hpost⟩)
 
 /-- non-vacuity: ragged document with empty containers -/
 example : (eval [.recur] (.root (.obj [("a", .arr [.int 1, .obj []]), ("e", .obj []), ("f", .null)]))).map MNode.pathStr
